@@ -15,8 +15,10 @@ Strict == IOEnv.STRICT = "1"
 N == Len(Rec)
 TrDirOf == [s \in Senders |-> "ab"]
 
-VARIABLE l
-tvars == <<vars, l>>
+VARIABLES l,
+          stopreq   \* free-running family: probes whose stop was requested (their exit itself is not logged)
+tvars == <<vars, l, stopreq>>
+KeepReq == UNCHANGED stopreq
 Ev == Rec[l]
 Adv == l' = l + 1
 Stay == l' = l
@@ -125,10 +127,17 @@ Reset ==
   /\ last' = [x \in Probes |-> [d \in Dirs |-> [s \in Senders |-> 0]]]
   /\ fifoOk' = TRUE /\ onceOk' = TRUE
 
-TNext == Reset \/ SendCast \/ CallBegin \/ Ret \/ Recv \/ ReplyObs \/ Life \/ PFwd \/ PResolve \/ SFwd \/ SReply \/ SCtl
-         \/ SkipInternal \/ SilentInternal \/ Unseen \/ End
+\* free-running family (real threads): the controller logs the stop request before it calls stop(); the probe exits
+\* at some later instant that no log line marks
+StopReq == IsA("obs.stopreq") /\ Adv /\ Ev.x \in Probes /\ stopreq' = stopreq \cup {Ev.x} /\ UNCHANGED vars
+SilentExit == ~Strict /\ Live /\ Stay /\ KeepReq /\ \E x \in stopreq : pr[x].st = "alive" /\ ProbeExit(x)
 
-TInit == Init /\ l = 1 /\ TLCSet(42, 1)
+TNext == \/ (Reset /\ stopreq' = {})
+         \/ StopReq \/ SilentExit
+         \/ ((SendCast \/ CallBegin \/ Ret \/ Recv \/ ReplyObs \/ Life \/ PFwd \/ PResolve \/ SFwd \/ SReply \/ SCtl
+              \/ SkipInternal \/ SilentInternal \/ Unseen \/ End) /\ KeepReq)
+
+TInit == Init /\ l = 1 /\ stopreq = {} /\ TLCSet(42, 1)
 TSpec == TInit /\ [][TNext]_tvars
 
 Progress == /\ TLCSet(42, IF l > TLCGet(42) THEN l ELSE TLCGet(42))
